@@ -229,7 +229,7 @@ def check_find(pid, tier, seed):
     rng = random.Random(seed * 7919 + int(pid[1:]))
     vec = zone_vectors(res, tier, seed, {"find"}, pid)
     if pid == "C17":
-        mc_system(res, tier)
+        mc_sessions(res, binary, tier, seed)
         # turn every search vector into buffer-based searches with every buffer length 0..4 (k <= 4 in the scaled model)
         v2 = vec + ".n"
         with open(v2, "w") as f:
@@ -263,11 +263,151 @@ def check_find(pid, tier, seed):
     return res.finish()
 
 
-def mc_system(res, tier):
-    """Bounded exploration of client sessions of TzRs.tla: all interleavings of API calls over small menus."""
+def _dt_arg(dt):
+    return {"t": dt["u"], "ns": dt["ns"], "type": {"off": dt["off"], "dst": dt["dst"], "des": dt["des"]}}
+
+
+def session_events(sess, dirs, vfs, k):
+    """One behaviour of the system model (MC_Session: the sequence of `last` observations) as harness events. Directly comparable
+    observations go into "x" (compared natively by the executor), the others into "sx" (compared by session_mismatches)."""
+    # a client session starts with no zone (UTC) and an empty buffer: the group mark, on a constructor of the UTC zone
+    out = [{"op": "fixedzone", "a": {"off": 0}, "g": 1}]
+    for c in sess:
+        op, a = c["op"], c["a"]
+        r = c.get("r")
+        x = None if r is None else [r]
+        if op == "zone":
+            a2 = dict(a); a2["via"] = "owned"
+            out.append({"op": "zone", "a": a2, "sx": {"accepted": c["accepted"], "errs": c["errs"]}})
+        elif op == "tzif":
+            out.append({"op": "tzif", "a": {"bytes": a}, "sx": {"accepted": c["accepted"]}})
+        elif op == "resolve":
+            out.append({"op": "resolve", "a": {"s": a, "dirs": dirs, "vfs": vfs, "via": "posix"}, "sx": {"kind": c["kind"]}})
+        elif op == "lookup":
+            out.append({"op": "lookup", "a": {"u": a, "via": "ref" if k % 2 else "owned"}, "x": x})
+        elif op == "localtime":
+            out.append({"op": "localtime", "a": {"u": a, "ns": 0}, "x": x})
+        elif op == "gmtime":
+            out.append({"op": "gmtime", "a": {"t": a, "ns": 0, "via": "dt"}, "x": x})
+        elif op == "timegm":
+            out.append({"op": "timegm", "a": dict(a, ns=0, via="dt"), "x": x})
+        elif op == "fromnanos":
+            out.append({"op": "fromnanos", "a": {"N": a, "via": "zone"}, "x": x})
+        elif op == "find":
+            out.append({"op": "find", "a": dict(a, ns=0), "sx": {"list": c["list"], "acc": c["acc"]}})
+        elif op == "findn":
+            out.append({"op": "findn", "a": dict(a, ns=0, n=c["n"]), "sx": {"count": c["count"], "exh": c["exh"], "data": c["data"], "full": c["full"]}})
+        elif op == "project":
+            out.append({"op": "project", "a": dict(_dt_arg(a), via="dt"), "sx": {"r": r}})
+        elif op == "render":
+            ra = {"t": a["u"], "ns": a["ns"], "off": a["off"], "via": "ts"}
+            if a["des"]:
+                ra.update(dst=a["dst"], des=a["des"])
+            out.append({"op": "rendert", "a": ra, "sx": {"text": c["text"]}})
+        elif op == "cmp":
+            out.append({"op": "dtcmp", "a": {"a": _dt_arg(a), "b": _dt_arg(c["b"])}, "sx": {"ord": c["ord"]}})
+        elif op == "rule":
+            out.append({"op": "rule", "a": a, "sx": {"accepted": c["accepted"], "errs": c["errs"]}})
+            if c["accepted"]:
+                out.append({"op": "zone", "a": dict(c["za"], via="owned"), "sx": {"accepted": True, "errs": []}})
+        elif op == "tzstring":
+            via = "v3" if c["ext"] else ("settings" if k % 2 else "v2")
+            out.append({"op": "tzstring", "a": {"s": a, "via": via}, "sx": {"accepted": c["accepted"]}})
+            if c["accepted"]:
+                out.append({"op": "zone", "a": dict(c["za"], via="owned"), "sx": {"accepted": True, "errs": []}})
+        else:
+            raise ToolError("system model emitted an unknown call: " + op)
+    return out
+
+
+def _canon(v):
+    return json.dumps(v, sort_keys=True)
+
+
+def session_mismatch(e):
+    """The observation the system model prescribes (sx) against what the crate returned (r); None if they agree. Entries with
+    equal instants may come in any order (C06 leaves ties open): lists are compared as multisets, the trace spec checks the order."""
+    sx, r, op = e["sx"], e["r"], e["op"]
+    ok = r.get("ok") if isinstance(r, dict) else None
+    if isinstance(r, dict) and ("panic" in r or "arg" in r):
+        return "panic-or-unusable"
+    if op in ("zone", "tzif", "rule", "tzstring"):
+        if sx["accepted"] != (ok is not None):
+            return "acceptance differs"
+        if ok is None and sx.get("errs") and r.get("err") not in sx["errs"]:
+            return "error kind differs"
+    elif op == "resolve":
+        if (sx["kind"] == "zone") != (ok is not None):
+            return "resolution outcome differs"
+    elif op == "find":
+        if ok is None or sorted(map(_canon, ok["list"])) != sorted(map(_canon, sx["list"])):
+            return "list differs"
+        for acc in ("unique", "earliest", "latest"):
+            if len(ok[acc]) != len(sx["acc"][acc]):
+                return acc + " differs"
+    elif op == "findn":
+        res = r.get("res", {}).get("ok") if isinstance(r.get("res"), dict) else None
+        if res is None or res["count"] != sx["count"] or bool(res["exh"]) != sx["exh"] or len(res["data"]) != len(sx["data"]):
+            return "count / exhaustive / number of written slots differ"
+        full = r.get("full", {}).get("ok")
+        if full is None or sorted(map(_canon, full["list"])) != sorted(map(_canon, sx["full"])):
+            return "allocating list differs"
+    elif op == "project":
+        want = sx["r"]
+        if "ok" in want:
+            if ok is None or ok["dst"] != want["ok"]:
+                return "projected date-time differs"
+        elif r.get("err") != want.get("err"):
+            return "projection error differs"
+    elif op == "rendert":
+        if ok is None or ok["text"] != sx["text"]:
+            return "text differs"
+    elif op == "dtcmp":
+        if ok is None or ok["ord"] != sx["ord"]:
+            return "order differs"
+    return None
+
+
+def mc_sessions(res, binary, tier, seed):
+    """Spec -> impl at the level of the system: every behaviour of the bounded TzRs machine (all sequences of MaxSteps API calls over
+    the menus of MC_TzRs; MC_Session carries the history) is replayed as one client session of the real crate - same zone, same
+    buffer, same date-time values carried from call to call - every observation compared with the model's, and the recording
+    validated by the trace specification as well."""
+    q = tier == "quick"
     consts = {k: f"<- {k}C" for k in ("Zones", "Instants", "LocalTimes", "Files", "TzValues", "Dirs", "Vfs", "Rules", "TzStrings", "Nanos")}
-    consts["MaxSteps"] = 2 if tier == "quick" else 3
-    res.add_mc(run_mc("MC_TzRs", consts, invariants=("Invariants",), workers=C.NCPU, timeout=6000, xmx="12g", extra_cfg="PROPERTY FrameOK\nPROPERTY BufFrame\n"))
+    consts.update(MaxSteps=2 if q else 3, EmitMod=1 if q else 23, EmitRem=0 if q else seed % 23)
+    raw = os.path.join(C.OUT, f"{res.pid}-sessions.raw")
+    os.makedirs(C.OUT, exist_ok=True)
+    # one TLC run: the system model's invariants and action properties on every behaviour, and the behaviours printed for the replay
+    info = run_mc("MC_Session", consts, invariants=("Invariants", "Inv"), spec="HSpec", workers=C.NCPU, timeout=6000, xmx="12g", vec_out=raw,
+                  extra_cfg="PROPERTY FrameOK\nPROPERTY BufFrame\n")
+    res.add_mc(info)
+    evs = os.path.join(C.OUT, f"{res.pid}-sessions.in")
+    evs2 = os.path.join(C.OUT, f"{res.pid}-sessions-validated.in")
+    nsess = nval = 0
+    with open(evs, "w") as f, open(evs2, "w") as f2:
+        for k, l in enumerate(open(raw)):
+            v = json.loads(l)
+            lines = [json.dumps(e, separators=(",", ":")) + "\n" for e in session_events(v["session"], v["dirs"], v["vfs"], k)]
+            f.writelines(lines)
+            if k % 5 == seed % 5:
+                f2.writelines(lines); nval += 1
+            nsess += 1
+    os.remove(raw)
+
+    def post(outp):
+        for l in open(outp):
+            e = json.loads(l)
+            if "sx" in e:
+                why = session_mismatch(e)
+                if why:
+                    res.violation("session-observation-differs", C.strip(e), dict(expected=e["sx"], why=why))
+    # every session: executed, every observation compared with the model's; one session in five also validated by the trace specification
+    run_pipeline(res, binary, "sessions", vec_path=evs, validate=False, post=post)
+    run_pipeline(res, binary, "sessions-validated", vec_path=evs2, validate=True, nshards=16)
+    os.remove(evs); os.remove(evs2)
+    res.notes["system_model_sessions_trace_validated"] = nval
+    res.notes["system_model_sessions_replayed"] = nsess
 
 
 def check_C14(tier, seed):
@@ -277,7 +417,7 @@ def check_C14(tier, seed):
     vecraw = os.path.join(C.OUT, "C14-vectors.ndjson")
     mc_calendar(res, tier, seed, vecraw)
     os.remove(vecraw)
-    mc_system(res, tier)
+    mc_sessions(res, binary, tier, seed)
     q = tier == "quick"
     run_pipeline(res, binary, "constructors", gen_lines=gens.gen_c14(rng, 20000 if q else 300000), nshards=8 if q else 16)
     run_pipeline(res, binary, "find-entries", gen_lines=gens.gen_find_zones(rng, 60 if q else 1500), nshards=8 if q else 16)
